@@ -135,6 +135,7 @@ func VerifC16Relay(depth, mask, optBits int) {
 					break
 				}
 				verifAssert(r.MessageType == MessageTypeRelayReply, "every-level-is-relay-reply")
+				verifAssert(int(r.HopCount) == i, "relay-reply-hop-count-grows-by-one-per-level")
 				verifAssert(verifSame(r.LinkAddr, levels[i].link), "same-link-address-at-every-level")
 				verifAssert(verifSame(r.PeerAddr, levels[i].peer), "same-peer-address-at-every-level")
 				iid := r.GetOneOption(OptionInterfaceID)
@@ -155,6 +156,23 @@ func VerifC16Relay(depth, mask, optBits int) {
 			}
 			verifAssert(cur == DHCPv6(reply), "given-reply-is-innermost")
 		}
+	}
+	if depth > 0 {
+		// the same holds for a chain of relay-reply messages built by encapsulation
+		var ro DHCPv6 = inner
+		for i := 0; i < depth; i++ {
+			r, err := EncapsulateRelay(ro, MessageTypeRelayReply, net.IP(levels[i].link), net.IP(levels[i].peer))
+			verifAssert(err == nil, "encapsulate-ok")
+			if err != nil {
+				break
+			}
+			verifAssert(int(r.HopCount) == i, "hop-count-grows-by-one-per-level")
+			d, derr := DecapsulateRelay(r)
+			verifAssert(derr == nil && d == ro, "decapsulate-returns-the-encapsulated-message")
+			ro = r
+		}
+		gi, gerr := ro.GetInnerMessage()
+		verifAssert(gerr == nil && gi == inner, "inner-message-found")
 	}
 	verifObserve("wire", wire)
 	verifReach("end")
